@@ -12,10 +12,11 @@ TECHNIQUE = "property-based testing (Hypothesis): coverage-template generators a
             "1024-read splitting logic, both memory modes; three-valued accounting oracle from BAM flags only"
 RULE = ("Hypothesis-generated deep loci (pile-ups joined by bridge reads, valleys of depth 1-3, unspliced tails ending "
         "on bin boundaries, short reads wholly inside the first/last bin of a sub-region; sparsely covered genes longer "
-        "than two splitting windows whose full-length reads are processed in >= 3 regions) and ordinary multi-locus "
+        "than two splitting windows whose full-length reads are processed in >= 3 regions; >= 1024 reads confined to "
+        "one 256-bp bin) and ordinary multi-locus "
         "scenarios with all flag/MAPQ combinations x {default, --high_memory} x {annotation, none} x --no_secondary / "
         "--min_mapq. Non-trivial = the cluster was processed in >= 2 regions (from --debug log, used only to "
-        "classify) and a read lies within 256 bp of a region edge, or the flag stage contains secondary + "
+        "classify) and a read lies within 256 bp of a region edge, or a one-bin pile-up of >= 1024 reads, or the flag stage contains secondary + "
         "supplementary + unmapped + low-MAPQ records; distinct by scenario hash.")
 ASSUMPTIONS = ["documented filters: unmapped, supplementary, --min_mapq, --no_secondary, inconsistent MAPQ < 5 "
                "(annotated), <=2-exon alignments with MAPQ < 1 or secondary in gene-free regions",
@@ -128,10 +129,14 @@ def deep_scenarios(draw):
     rnd = draw(st.randoms(use_true_random=True))
     src = S.RndSrc(rnd)
     annotated = draw(st.booleans())
-    tmpl = draw(st.sampled_from(["pileups", "pileups", "plateau", "long_gene"]))
+    tmpl = draw(st.sampled_from(["pileups", "pileups", "pileups", "plateau", "plateau", "long_gene", "long_gene",
+                                 "one_bin"]))
     if tmpl == "plateau":
         sc = S.gen_plateau_locus(src, with_annotation=annotated)
         sc["template"] = "plateau"
+    elif tmpl == "one_bin":
+        sc = S.gen_one_bin_pileup(src, with_annotation=annotated)
+        sc["template"] = "one_bin"
     elif tmpl == "long_gene":
         sc = S.gen_long_gene_locus(src, with_annotation=annotated)
         sc["template"] = "long_gene"
@@ -165,7 +170,7 @@ def evaluate_deep(case, ctx):
             edges.add(b)
         near = any(min(abs(r["p"] - e) for e in edges) < 256 or min(abs(R.ref_end_of(r) - e) for e in edges) < 256
                    for r in sc["reads"] if r["n"] in set(sc["special"])) if edges else False
-        if len(regions) >= 2 and near:
+        if (len(regions) >= 2 and near) or sc.get("template") == "one_bin":
             ctx.mark_nontrivial(case_hash(case))
             ctx.sample({"n_reads": len(sc["reads"]), "chroms": sc["chroms"], "regions": regions[:6],
                         "special_reads": [[r["n"], r["p"], R.ref_end_of(r)] for r in sc["reads"]
